@@ -59,6 +59,15 @@ def bench_scenarios(tier, seed):
     for j in range(120 if tier == "quick" else 1200):
         sc = G.base(rnd, f"b{j}", action="bench")
         sc["options"] = {"sample_count": rnd.choice([0, 1, 2, 3, 4, 5, 7]), "sample_size": rnd.choice([0, 1, 2, 3])}
+        if rnd.random() < 0.3:
+            # tuned sample size with per-input counters whose values differ from input to input
+            del sc["options"]["sample_size"]
+            sc["options"]["sample_count"] = rnd.choice([1, 2, 3, 5])
+            sc["clock"]["precision"] = 1
+            sc["costs"]["call"] = rnd.choice([30, 60, 150])
+            if sc["entry"] not in ("bench", "bench_local"):
+                sc["input_counters"] = sorted(rnd.sample([0, 1, 2, 3], rnd.choice([1, 2])))
+                sc["count_values"] = [rnd.randint(0, 9) for _ in range(rnd.choice([3, 5, 7]))]
         if rnd.random() < 0.15:
             sc["options"]["max_time_ns"] = 0
         sc["alloc_script"] = G.rand_alloc_script(rnd, heavy=True)
